@@ -44,6 +44,7 @@ class Out:
         self.f = open(path, "a", buffering=1)
         self.counters = {}
         self.distinct = set()
+        self._flushed = set()
         self.samples = []
         self.viol_per_key = {}
         self.extra = {}
@@ -96,12 +97,16 @@ class Out:
         self.f.write(json.dumps(rec, ensure_ascii=True) + "\n")
 
     def flush_obs(self, final=False):
+        # only the digests that are new since the previous flush are written (the driver unions them): periodic flushes of the
+        # whole set made shard files grow quadratically
+        new = self.distinct - self._flushed
+        self._flushed |= new
         self._w(
             {
                 "t": "obs",
                 "final": final,
                 "counters": self.counters,
-                "distinct": sorted(self.distinct),
+                "distinct": sorted(new),
                 "samples": self.samples,
                 "viol_counts": self.viol_per_key,
                 "extra": self.extra,
